@@ -72,11 +72,18 @@ def _outcome(ctx, root, info):
     if oc is None:
         if isinstance(root, dict) and info.field_definition.name in root:
             return root[info.field_definition.name]
-        return RX.default_value(info.schema, info.parent_type, info.field_definition, path)
+        v = RX.default_value(info.schema, info.parent_type, info.field_definition, path)
+        return _as_objects(v) if ctx.world.get(OBJECTS) else v
     if oc[0] == "value":
         return oc[1]
     if oc[0] == "null":
         return None
+    if oc[0] == "error" and oc[1] == "E-foreign-path":
+        # an error that already carries a path of its own (forwarded from a delegated request): the response reports the position of THIS field
+        raise ResolverError(oc[1], path=["foreign", 0], extensions=oc[2] if len(oc) > 2 else None)
+    if oc[0] == "error" and oc[1] == "E-custom-init":
+        # a subclass whose constructor has a signature of its own (positional + keyword-only parameters)
+        raise CustomInitError("user", ident=42)
     if oc[0] == "error":
         raise ResolverError(oc[1], extensions=oc[2] if len(oc) > 2 else None)
     if oc[0] == "gen-error":
@@ -94,10 +101,42 @@ def _outcome(ctx, root, info):
         raise IndexError(oc[1])         # an unexpected exception of a class that library code catches for its own purposes somewhere
     if oc[1].startswith("KeyError"):
         raise KeyError(oc[1])
+    if oc[1].startswith(("UnknownEnumValue", "InvalidValue")):
+        # one of the library's own exception classes that is neither a resolver error nor a coercion error (a resolver calling EnumType.get_value,
+        # value_from_ast ... on its own account): as unexpected as any other exception
+        import py_gql.exc as X
+        raise getattr(X, oc[1].split(":")[0])(oc[1])
     raise RuntimeError(oc[1])
 
 
 _SHARED_ERRORS = {}
+
+
+def _custom_init_error():
+    from py_gql.exc import ResolverError
+
+    class CustomInitError(ResolverError):
+        def __init__(self, kind, *, ident):
+            super().__init__("E-custom-init")
+            self.kind, self.ident = kind, ident
+    return CustomInitError
+
+
+CustomInitError = _custom_init_error()
+OBJECTS = ("__objects__",)          # world flag: composite values are instances of ONE Python class carrying their type name per instance
+
+
+class VfObj:
+    def __init__(self, typename):
+        self.__typename__ = typename
+
+
+def _as_objects(v):
+    if isinstance(v, list):
+        return [_as_objects(x) for x in v]
+    if isinstance(v, dict) and set(v) == {"__typename__"}:
+        return VfObj(v["__typename__"])
+    return v
 
 
 def world_resolver(root, ctx, info, **args):
@@ -286,6 +325,21 @@ def run_request_unguarded(schema, query, variables, world, config, schedule=None
             finally:
                 asyncio.set_event_loop(None)
                 loop.close()
+        elif config == "executor-asyncio-offload":
+            # the runtime's default mode: plain (non-coroutine) resolvers are wrapped and run in worker threads of the loop's default executor.
+            # Real threads: completion order is whatever it is, so only order-free facts (outcome, data, errors, invocation multiset) may be compared.
+            loop = asyncio.new_event_loop()
+            try:
+                asyncio.set_event_loop(loop)
+                rt = AsyncIORuntime(loop=loop)
+                res = loop.run_until_complete(asyncio.wait_for(process_graphql_query(schema, query, executor_cls=Executor, runtime=rt, **kw), 30))
+            finally:
+                try:
+                    loop.run_until_complete(loop.shutdown_default_executor())
+                except Exception:
+                    pass
+                asyncio.set_event_loop(None)
+                loop.close()
         else:
             raise ValueError(config)
     except Exception as e:
@@ -397,6 +451,8 @@ OPERATIONS = [
     ("query ($n: Int = 1) { a: need(n: $n) b: need(n: 2) }", {"n": None}),
     ("mutation { a(n: 1) b { name } c d }", {}),
     ("mutation M($n: Int = 2) { x: a(n: $n) y: a(n: 3) d }", {}),
+    ("mutation { a(n: 1) __typename b { name } t: __typename d }", {}),
+    ("subscription { tick }"[:0] or "{ count t: __typename me { __typename name } __typename }", {}),
 ]
 
 
@@ -440,13 +496,18 @@ def worlds_for(schema, query, variables, operation_name=None, with_boom=False, l
     if len(leaves) >= 2:
         fixed.append(("shared-error@%s+%s" % (leaves[0], leaves[-1]), {leaves[0]: ("shared-error", "S1"), leaves[-1]: ("shared-error", "S1")}))
         fixed.append(("shared-error@%s+%s" % (leaves[0], leaves[1]), {leaves[0]: ("shared-error", "S2"), leaves[1]: ("shared-error", "S2")}))
+    if leaves:
+        fixed.append(("error-foreign-path@%s" % (leaves[-1],), {leaves[-1]: ("error", "E-foreign-path", None)}))
+        fixed.append(("error-custom-init@%s" % (leaves[0],), {leaves[0]: ("error", "E-custom-init", None)}))
     if with_boom and paths:
         fixed.append(("boom-index@%s" % (paths[0][0],), {paths[0][0]: ("boom", "IndexError: unexpected")}))
         fixed.append(("boom-key@%s" % (paths[-1][0],), {paths[-1][0]: ("boom", "KeyError: unexpected")}))
+        fixed.append(("boom-lib@%s" % (paths[-1][0],), {paths[-1][0]: ("boom", "UnknownEnumValue: unexpected")}))
+        fixed.append(("boom-lib@%s" % (paths[0][0],), {paths[0][0]: ("boom", "InvalidValue: unexpected")}))
     if limit is not None and len(out) > limit:
         step = len(out) / float(limit)
         out = [out[int(i * step)] for i in range(limit)]
-    out[1:1] = fixed + fixed_gen[:1]
+    out[1:1] = fixed + fixed_gen[:1] + [("objects", {OBJECTS: ("flag",)})]
     return name, out
 
 
